@@ -13,7 +13,7 @@ MORE3 = {
              "enabling flags are unknown operators, and softfork_extension maps extension numbers exactly as documented. The comparison of two "
              "whole runs is the composition of these facts (relational, not mechanised); the keccak/BLS operators themselves are not under contract "
              "(they only run inside guards, whose outcome the unaware node never observes).",
-        note=TB + "ECDSA parsing/verification are opaque total functions; composition assumption H at exit_guard.",
+        note=TB + "ECDSA parsing/verification are opaque total functions; exit_guard's history facts are proved from the checkpoint invariant cpinv.",
         tech="contract-based deductive verification (Verus): per-path postconditions of the softfork operator, fixed-cost operators, lemma over the unknown-operator cost rule",
         ref="4/C08, 11.1"),
     "C03": dict(
